@@ -28,19 +28,67 @@ theorem transferMsg_eq_ok {n : Nat} {d to frm admin : String} {m : Msg} :
 def pullMsgs (env : Env) (d : String) (n : Nat) (sender : String) : List Msg :=
   if env.restricted d then [.transfer ⟨d, n⟩ env.contract sender env.contract] else []
 
-theorem pull_eq_ok {env : Env} {d : String} {n : Nat} {sender : String} {ms : List Msg} :
-    (if env.restricted d = true then (do
-        let m ← transferMsg n d env.contract sender env.contract
-        pure [m])
-      else pure []) = Res.ok ms ↔
+theorem pullR_eq_ok {env : Env} {d : String} {n : Nat} {sender : String} {ms : List Msg} :
+    pullR env d n sender = Res.ok ms ↔
       (env.restricted d = true → n ≠ 0) ∧ ms = pullMsgs env d n sender := by
-  unfold pullMsgs
+  unfold pullR pullMsgs transferMsg
   cases env.restricted d
-  · simp [eq_comm]
-  · simp only [if_true, Res.bind_eq_ok, transferMsg_eq_ok, Res.pure_eq, Res.ok.injEq, forall_const]
+  · simp only [Bool.false_eq_true, if_false, Res.ok.injEq, false_implies, true_and]; exact eq_comm
+  · by_cases hn : n = 0
+    · simp [hn]
+    · simp only [if_true, hn, if_false, Res.ok.injEq, forall_const, ne_eq, not_false_eq_true, true_and]
+      exact eq_comm
+
+/-- messages of the approver leg -/
+def approverMsgs (env : Env) (cls : AskClass) (amountOf : Coin → Nat) : List Msg :=
+  match cls with
+  | .ready ap c => [payMsg env c.denom (amountOf c) ap]
+  | _ => []
+
+theorem approverLeg_eq_ok {env : Env} {cls : AskClass} {f : Coin → Nat} {ms : List Msg} :
+    approverLeg env cls f = .ok ms ↔
+      (∀ ap c, cls = .ready ap c → env.restricted c.denom = true → f c ≠ 0) ∧
+      ms = approverMsgs env cls f := by
+  unfold approverLeg approverMsgs
+  cases cls with
+  | basic =>
+    simp only [Res.ok.injEq]
     constructor
-    · rintro ⟨m, ⟨hn, rfl⟩, rfl⟩; exact ⟨hn, rfl⟩
-    · rintro ⟨hn, rfl⟩; exact ⟨_, ⟨hn, rfl⟩, rfl⟩
+    · rintro rfl; exact ⟨(by intro _ _ h; cases h), rfl⟩
+    · rintro ⟨_, rfl⟩; rfl
+  | pending =>
+    simp only [Res.ok.injEq]
+    constructor
+    · rintro rfl; exact ⟨(by intro _ _ h; cases h), rfl⟩
+    · rintro ⟨_, rfl⟩; rfl
+  | ready ap c =>
+    simp only []
+    cases hx : addTransfer (env.restricted c.denom) (f c) c.denom ap env.contract with
+    | ok m =>
+      obtain ⟨hz, rfl⟩ := addTransfer_eq_ok.mp hx
+      simp only [Res.ok.injEq, AskClass.ready.injEq, and_imp]
+      constructor
+      · rintro rfl; exact ⟨fun _ _ h1 h2 => by subst h1 h2; exact hz, rfl⟩
+      · rintro ⟨_, rfl⟩; rfl
+    | err e =>
+      simp only [false_iff, not_and, reduceCtorEq]
+      intro hall
+      have hz := hall ap c rfl
+      have : addTransfer (env.restricted c.denom) (f c) c.denom ap env.contract =
+          .ok (payMsg env c.denom (f c) ap) := addTransfer_eq_ok.mpr ⟨hz, rfl⟩
+      rw [hx] at this; cases this
+
+def payIfPosMsgs (env : Env) (d : String) (n : Nat) (to : String) : List Msg :=
+  if n = 0 then [] else [payMsg env d n to]
+
+theorem payIfPos_eq_ok {env : Env} {d : String} {n : Nat} {to : String} {ms : List Msg} :
+    payIfPos (env.restricted d) n d to env.contract = .ok ms ↔ ms = payIfPosMsgs env d n to := by
+  unfold payIfPos payIfPosMsgs
+  by_cases hn : n = 0
+  · simp only [hn, beq_self_eq_true, if_true, Res.ok.injEq]; exact eq_comm
+  · have hx : addTransfer (env.restricted d) n d to env.contract = .ok (payMsg env d n to) :=
+      addTransfer_eq_ok.mpr ⟨fun _ => hn, rfl⟩
+    simp only [hn, beq_iff_eq, if_false, hx, Res.ok.injEq]; exact eq_comm
 
 /-! ### cancel_ask -/
 
@@ -48,75 +96,41 @@ theorem cancelAsk_ok {env : Env} {s s' : State} {sender : String} {funds : List 
     {r : Response} (h : cancelAsk env s sender funds id = .ok (s', r)) :
     ∃ a, funds = [] ∧ s.asks.get? id = some a ∧ sender = a.owner ∧
       (env.restricted a.base = true → a.size ≠ 0) ∧
+      (∀ ap c, a.cls = .ready ap c → env.restricted c.denom = true → c.amount ≠ 0) ∧
       s' = { s with asks := s.asks.del a.id } ∧
-      r.attrs = [("action", "cancel_ask"), ("id", a.id)] ∧
-      r.msgs = payMsg env a.base a.size a.owner ::
-        (match a.cls with
-         | .ready ap c => [payMsg env c.denom c.amount ap]
-         | _ => []) ∧
-      (∀ ap c, a.cls = .ready ap c → env.restricted c.denom = true → c.amount ≠ 0) := by
+      r = { msgs := payMsg env a.base a.size a.owner :: approverMsgs env a.cls (fun c => c.amount),
+            attrs := [("action", "cancel_ask"), ("id", a.id)] } := by
   unfold cancelAsk at h
-  simp only [Res.bind_eq_ok, guardR_eq_ok, orErr_eq_ok, addTransfer_eq_ok] at h
-  obtain ⟨_, hf, a, ha, _, hown, m1, ⟨hz, hm1⟩, h⟩ := h
-  refine ⟨a, by simpa using hf, ha, by simpa using hown, hz, ?_⟩
-  cases hc : a.cls <;> simp only [hc] at h
-  all_goals simp only [Res.bind_eq_ok, addTransfer_eq_ok, Res.pure_eq, Res.ok.injEq, Prod.mk.injEq] at h
-  · obtain ⟨_, rfl, rfl, rfl⟩ := h
-    simp [hm1]
-  · obtain ⟨_, rfl, rfl, rfl⟩ := h
-    simp [hm1]
-  · obtain ⟨m2, ⟨hz2, rfl⟩, _, rfl, rfl, rfl⟩ := h
-    simp [hm1]
-    exact hz2
+  simp only [Res.bind_eq_ok, guardR_eq_ok, orErr_eq_ok, addTransfer_eq_ok, approverLeg_eq_ok,
+    Res.pure_eq, Res.ok.injEq, Prod.mk.injEq] at h
+  obtain ⟨_, hf, a, ha, _, hown, m1, ⟨hz, rfl⟩, m2, ⟨hz2, rfl⟩, rfl, rfl⟩ := h
+  exact ⟨a, by simpa using hf, ha, by simpa using hown, hz, hz2, rfl, rfl⟩
 
 /-! ### reverse_ask -/
-
-/-- the ask after `eff` units were reversed -/
-def askReduced (a : Ask) (eff : Nat) : Ask :=
-  { a with size := a.size - eff,
-           cls := match a.cls with
-             | .ready ap c => .ready ap ⟨c.denom, a.size - eff⟩
-             | c => c }
 
 theorem reverseAsk_ok {env : Env} {s s' : State} {sender : String} {funds : List Coin}
     {id action : String} {cancel : Option Nat} {r : Response}
     (h : reverseAsk env s sender funds id action cancel = .ok (s', r)) :
     ∃ a, funds = [] ∧ memS sender s.info.executors = true ∧ s.asks.get? id = some a ∧
-      (let eff := cancel.getD a.size
-       (cancel.isNone = true ∨ eff % s.info.increment = 0) ∧ eff ≤ a.size ∧
-       (env.restricted a.base = true → eff ≠ 0) ∧
-       (∀ ap c, a.cls = .ready ap c → env.restricted c.denom = true → eff ≠ 0) ∧
-       s' = { s with asks := if a.size - eff = 0 then s.asks.del a.id
-                              else s.asks.set a.id (askReduced a eff) } ∧
-       r.attrs = [("action", action), ("id", id), ("reverse_size", toString eff),
-                  ("order_open", if a.size - eff = 0 then "false" else "true")] ∧
-       r.msgs = payMsg env a.base eff a.owner ::
-         (match a.cls with
-          | .ready ap c => [payMsg env c.denom eff ap]
-          | _ => [])) := by
+      (cancel.isNone = true ∨ cancel.getD a.size % s.info.increment = 0) ∧
+      cancel.getD a.size ≤ a.size ∧
+      (env.restricted a.base = true → cancel.getD a.size ≠ 0) ∧
+      (∀ ap c, (a.reduce (cancel.getD a.size)).cls = .ready ap c →
+          env.restricted c.denom = true → cancel.getD a.size ≠ 0) ∧
+      s' = { s with asks := putAsk s.asks a.id (a.reduce (cancel.getD a.size)) } ∧
+      r = { msgs := payMsg env a.base (cancel.getD a.size) a.owner ::
+                    approverMsgs env (a.reduce (cancel.getD a.size)).cls (fun _ => cancel.getD a.size),
+            attrs := [("action", action), ("id", id),
+                      ("reverse_size", toString (cancel.getD a.size)),
+                      ("order_open", openFlag ((a.reduce (cancel.getD a.size)).size != 0))] } := by
   unfold reverseAsk at h
-  simp only [Res.bind_eq_ok, guardR_eq_ok, orErr_eq_ok, addTransfer_eq_ok, subR_eq_ok] at h
-  obtain ⟨_, _, _, hf, _, hex, a, ha, _, _, _, hinc, n, ⟨hle, rfl⟩, m1, ⟨hz, rfl⟩, h⟩ := h
-  refine ⟨a, by simpa using hf, hex, ha, ?_⟩
-  simp only []
-  refine ⟨by simpa [Bool.or_eq_true] using hinc, hle, hz, ?_⟩
-  cases hc : a.cls <;> simp only [hc] at h ⊢
-  all_goals simp only [Res.bind_eq_ok, addTransfer_eq_ok, Res.pure_eq, Res.ok.injEq] at h
-  · obtain ⟨_, rfl, h⟩ := h
-    refine ⟨(by intro ap c h; cases h), ?_⟩
-    by_cases h0 : a.size - cancel.getD a.size = 0
-    · simp [h0] at h ⊢; obtain ⟨rfl, rfl⟩ := h; simp
-    · simp [h0] at h ⊢; obtain ⟨rfl, rfl⟩ := h; simp [askReduced, hc]
-  · obtain ⟨_, rfl, h⟩ := h
-    refine ⟨(by intro ap c h; cases h), ?_⟩
-    by_cases h0 : a.size - cancel.getD a.size = 0
-    · simp [h0] at h ⊢; obtain ⟨rfl, rfl⟩ := h; simp
-    · simp [h0] at h ⊢; obtain ⟨rfl, rfl⟩ := h; simp [askReduced, hc]
-  · obtain ⟨m2, ⟨hz2, rfl⟩, _, rfl, h⟩ := h
-    refine ⟨(by intro ap c h h2; cases h; exact hz2 h2), ?_⟩
-    by_cases h0 : a.size - cancel.getD a.size = 0
-    · simp [h0] at h ⊢; obtain ⟨rfl, rfl⟩ := h; simp
-    · simp [h0] at h ⊢; obtain ⟨rfl, rfl⟩ := h; simp [askReduced, hc]
+  simp only [Res.bind_eq_ok, guardR_eq_ok, orErr_eq_ok, addTransfer_eq_ok, approverLeg_eq_ok,
+    Res.pure_eq, Res.ok.injEq, Prod.mk.injEq] at h
+  obtain ⟨_, _, _, hf, _, hex, a, ha, _, _, _, hinc, _, hle, m1, ⟨hz, rfl⟩, m2, ⟨hz2, rfl⟩, rfl, rfl⟩ := h
+  refine ⟨a, by simpa using hf, hex, ha, by simpa [Bool.or_eq_true] using hinc, by simpa using hle,
+    hz, hz2, ?_, ?_⟩
+  · simp [Ask.reduce]
+  · simp [Ask.reduce]
 
 /-! ### shared admission checks -/
 
@@ -172,11 +186,383 @@ theorem createAsk_ok {env : Env} {s s' : State} {sender : String} {funds : List 
                 ("target_base", s.info.baseDenom), ("base", base), ("quote", quote),
                 ("price", price), ("size", toString size)]) := by
   unfold createAsk at h
-  simp only [Res.bind_eq_ok, guardR_eq_ok, orErr_eq_ok, pull_eq_ok, Res.pure_eq, Res.ok.injEq,
+  simp only [Res.bind_eq_ok, guardR_eq_ok, orErr_eq_ok, pullR_eq_ok, Res.pure_eq, Res.ok.injEq,
     Prod.mk.injEq, checkAttrs_ok] at h
   obtain ⟨_, hb, _, hf, _, hq, _, hi, _, hs, p, hp, _, hat, _, hex, ms, ⟨hz, rfl⟩, rfl, rfl⟩ := h
   refine ⟨by simpa [Bool.or_eq_true] using hb, hf, hq, by simpa using hi, by simpa using hs,
     checkPrice_priceOK hp, hat, by simpa using hex, hz, ?_⟩
   simp
+
+/-! ### approve_ask -/
+
+theorem checkPending_ok {c : AskClass} {u : Unit} : checkPending c = .ok u ↔ c = .pending := by
+  cases c <;> simp [checkPending]
+
+theorem approveAsk_ok {env : Env} {s s' : State} {sender : String} {funds : List Coin}
+    {id base : String} {size : Nat} {r : Response}
+    (h : approveAsk env s sender funds id base size = .ok (s', r)) :
+    ∃ a, memS sender s.info.approvers = true ∧
+      fundsOk (env.restricted base) funds ⟨base, size⟩ = true ∧
+      s.asks.get? id = some a ∧ a.cls = .pending ∧ size = a.size ∧ base = s.info.baseDenom ∧
+      (env.restricted base = true → size ≠ 0) ∧
+      s' = { s with asks := s.asks.set id { a with cls := .ready sender ⟨base, size⟩ } } ∧
+      r = { msgs := pullMsgs env base size sender,
+            attrs := [("action", "approve_ask"), ("id", a.id),
+                      ("class", classJson (.ready sender ⟨base, size⟩)),
+                      ("quote", a.quote), ("price", a.price), ("size", toString a.size)] } := by
+  unfold approveAsk at h
+  simp only [Res.bind_eq_ok, guardR_eq_ok, orErr_eq_ok, pullR_eq_ok, Res.pure_eq, Res.ok.injEq,
+    Prod.mk.injEq, checkPending_ok] at h
+  obtain ⟨_, hap, _, hf, a, ha, _, hp, _, hsz, ms, ⟨hz, rfl⟩, rfl, rfl⟩ := h
+  simp only [Bool.and_eq_true, beq_iff_eq] at hsz
+  exact ⟨a, hap, hf, ha, hp, hsz.1, hsz.2, hz, rfl, rfl⟩
+
+/-! ### create_bid -/
+
+theorem fromU128_ok {n : Nat} {d : Dec} : Dec.fromU128 n = .ok d ↔ n < LIM ∧ d = Dec.ofNat n := by
+  unfold Dec.fromU128
+  by_cases hl : n < LIM
+  · simp only [hl, if_true, Res.ok.injEq, true_and]; exact eq_comm
+  · simp [hl]
+
+/-- the fee sent with a bid is exactly the calculated one, in the quote denomination -/
+def feeMatches (fee : Option Coin) (feeSize : Nat) (quote : String) : Prop :=
+  match fee with
+  | some f => f.amount = feeSize ∧ f.denom = quote
+  | none => feeSize = 0
+
+theorem checkFee_ok {fee : Option Coin} {feeSize : Nat} {quote : String} {u : Unit} :
+    checkFee fee feeSize quote = .ok u ↔ feeMatches fee feeSize quote := by
+  unfold checkFee feeMatches
+  cases fee with
+  | none => simp
+  | some f =>
+    by_cases h1 : f.amount = feeSize <;> simp [h1]
+
+theorem bidRateR_ok {info : Info} {rate : Dec} :
+    bidRateR info = .ok rate ↔ Spec.bidRate info = some rate := by
+  unfold bidRateR Spec.bidRate
+  cases info.bidFee with
+  | none => simp only [Res.ok.injEq, Option.some.injEq]
+  | some fi => simp
+
+theorem createBid_ok {env : Env} {s s' : State} {sender : String} {funds : List Coin}
+    {id base : String} {fee : Option Coin} {price quote : String} {quoteSize size : Nat}
+    {r : Response}
+    (h : createBid env s sender funds id base fee price quote quoteSize size = .ok (s', r)) :
+    ∃ p total rate feeSize,
+      checkPrice s.info price = .ok p ∧ s.info.increment ≠ 0 ∧ size % s.info.increment = 0 ∧
+      Dec.total p size = .ok total ∧ total.hasFract = false ∧
+      quoteSize < LIM ∧ Dec.eqv total (Dec.ofNat quoteSize) = true ∧
+      Spec.bidRate s.info = some rate ∧
+      Dec.rateFee rate total = .ok feeSize ∧ feeMatches fee feeSize quote ∧
+      memS quote s.info.quotes = true ∧ base = s.info.baseDenom ∧
+      Spec.hasAllAttrs env sender s.info.bidAttrs = true ∧
+      fundsOk (env.restricted quote) funds ⟨quote, total.trunc + feeAmt fee⟩ = true ∧
+      s.bids.get? id = none ∧
+      (env.restricted quote = true → quoteSize + feeAmt fee ≠ 0) ∧
+      s' = { s with bids := s.bids.set id (.v3
+              { base := ⟨base, size⟩, accBase := 0, accQuote := 0, accFee := 0, fee := fee,
+                id := id, owner := sender, price := price, quote := ⟨quote, quoteSize⟩ }) } ∧
+      r = { msgs := pullMsgs env quote (quoteSize + feeAmt fee) sender,
+            attrs := [("action", "create_bid"), ("base", base), ("id", id), ("price", price),
+                      ("quote", quote), ("quote_size", toString quoteSize),
+                      ("size", toString size)] } := by
+  unfold createBid at h
+  simp only [Res.bind_eq_ok, guardR_eq_ok, pullR_eq_ok, Res.pure_eq, Res.ok.injEq,
+    Prod.mk.injEq, checkAttrs_ok, fromU128_ok, checkFee_ok, bidRateR_ok] at h
+  obtain ⟨p, hp, _, hi, _, hs, total, ht, _, hfr, q, ⟨hlim, rfl⟩, _, heq, rate, hrate, feeSize, hfee,
+    _, hfm, _, hqs, _, hb, _, hat, _, hfu, _, hex, ms, ⟨hz, rfl⟩, rfl, rfl⟩ := h
+  exact ⟨p, total, rate, feeSize, hp, by simpa using hi, by simpa using hs, ht, by simpa using hfr,
+    hlim, heq, hrate, hfee, hfm, hqs, by simpa using hb, hat, hfu, by simpa using hex, hz, rfl, rfl⟩
+
+/-! ### reverse_bid -/
+
+theorem feeNeed_ok {b : Bid} {f : Coin} {left n : Nat} :
+    feeNeed b f left = .ok n ↔ Dec.feeFor f.amount b.quote.amount left = .ok n := by
+  unfold feeNeed
+  cases hx : Dec.feeFor f.amount b.quote.amount left with
+  | ok m => simp
+  | err e => cases e <;> simp
+
+/-- what `cancelFee` / `calcFee` establish about a fee-bearing bid when `used` more quote is
+    consumed: nothing underflows and `need` is the fee the rest still needs -/
+structure FeeSplit (b : Bid) (f : Coin) (used need : Nat) : Prop where
+  hq : b.accQuote ≤ b.quote.amount
+  hused : used ≤ b.remQuote
+  hneed : Dec.feeFor f.amount b.quote.amount (b.remQuote - used) = .ok need
+  hf : b.accFee ≤ f.amount
+  hle : need ≤ b.remFee
+
+theorem remFee_some {b : Bid} {f : Coin} (h : b.fee = some f) : b.remFee = f.amount - b.accFee := by
+  simp [Bid.remFee, Bid.feeAmount, h]
+
+theorem cancelFee_ok {b : Bid} {q : Nat} {x : Option Nat} :
+    cancelFee b q = .ok x ↔
+      (b.fee = none ∧ x = none) ∨
+      (∃ f need, b.fee = some f ∧ FeeSplit b f q need ∧ x = some (b.remFee - need)) := by
+  unfold cancelFee
+  cases hfee : b.fee with
+  | none => simp only [Res.ok.injEq, true_and, reduceCtorEq, false_and, exists_false, or_false]; exact eq_comm
+  | some f =>
+    simp only [Res.bind_eq_ok, subR_eq_ok, feeNeed_ok, Res.pure_eq, Res.ok.injEq, reduceCtorEq,
+      false_and, false_or, Option.some.injEq,]
+    constructor
+    · rintro ⟨_, ⟨h1, rfl⟩, _, ⟨h2, rfl⟩, need, hn, _, ⟨h3, rfl⟩, _, ⟨h4, rfl⟩, rfl⟩
+      refine ⟨f, need, rfl, ⟨h1, h2, hn, h3, ?_⟩, ?_⟩
+      · rw [remFee_some hfee]; exact h4
+      · rw [remFee_some hfee]
+    · rintro ⟨f', need, rfl, ⟨h1, h2, hn, h3, h4⟩, rfl⟩
+      rw [remFee_some hfee] at h4 ⊢
+      exact ⟨_, ⟨h1, rfl⟩, _, ⟨h2, rfl⟩, need, hn, _, ⟨h3, rfl⟩, _, ⟨h4, rfl⟩, rfl⟩
+
+theorem calcFee_ok {b : Bid} {g n : Nat} :
+    calcFee b g = .ok n ↔
+      (b.fee = none ∧ n = 0) ∨
+      (∃ f need, b.fee = some f ∧ FeeSplit b f g need ∧ n = b.remFee - need) := by
+  unfold calcFee
+  cases hfee : b.fee with
+  | none => simp only [Res.ok.injEq, true_and, reduceCtorEq, false_and, exists_false, or_false]; exact eq_comm
+  | some f =>
+    simp only [Res.bind_eq_ok, subR_eq_ok, feeNeed_ok, reduceCtorEq,
+      false_and, false_or, Option.some.injEq,]
+    constructor
+    · rintro ⟨_, ⟨h1, rfl⟩, _, ⟨h2, rfl⟩, need, hn, _, ⟨h3, rfl⟩, h4, rfl⟩
+      refine ⟨f, need, rfl, ⟨h1, h2, hn, h3, ?_⟩, ?_⟩
+      · rw [remFee_some hfee]; exact h4
+      · rw [remFee_some hfee]
+    · rintro ⟨f', need, rfl, ⟨h1, h2, hn, h3, h4⟩, rfl⟩
+      rw [remFee_some hfee] at h4 ⊢
+      exact ⟨_, ⟨h1, rfl⟩, _, ⟨h2, rfl⟩, need, hn, _, ⟨h3, rfl⟩, h4, rfl⟩
+
+theorem reverseBid_ok {env : Env} {s s' : State} {sender : String} {funds : List Coin}
+    {id action : String} {cancel : Option Nat} {r : Response}
+    (h : reverseBid env s sender funds id action cancel = .ok (s', r)) :
+    ∃ b p tq effQuote effFee,
+      funds = [] ∧ loadBid s id = some b ∧
+      (if action == "cancel_bid" then sender == b.owner else memS sender s.info.executors) = true ∧
+      b.accBase ≤ b.base.amount ∧
+      (cancel.isNone = true ∨ cancel.getD b.remBase % s.info.increment = 0) ∧
+      cancel.getD b.remBase ≤ b.remBase ∧
+      Dec.parse b.price = some p ∧ Dec.total p (cancel.getD b.remBase) = .ok tq ∧
+      tq.hasFract = false ∧ tq.toU128 = some effQuote ∧
+      cancelFee b effQuote = .ok effFee ∧
+      (env.restricted b.quote.denom = true → effQuote ≠ 0) ∧
+      s' = { s with bids := putBid s.bids b.id (b.accumulate (cancel.getD b.remBase) effQuote (effFee.getD 0)) } ∧
+      r = { msgs := payMsg env b.quote.denom effQuote b.owner ::
+                    payIfPosMsgs env b.quote.denom (effFee.getD 0) b.owner,
+            attrs := [("action", action), ("id", id),
+                      ("reverse_size", toString (cancel.getD b.remBase)),
+                      ("order_open", openFlag
+                        (b.base.amount - (b.accBase + cancel.getD b.remBase) != 0))] } := by
+  unfold reverseBid at h
+  simp only [Res.bind_eq_ok, guardR_eq_ok, orErr_eq_ok, addTransfer_eq_ok, payIfPos_eq_ok,
+    subR_eq_ok, Res.pure_eq, Res.ok.injEq, Prod.mk.injEq] at h
+  obtain ⟨_, _, _, hf, b, hb, _, hauth, _, ⟨hab, rfl⟩, _, _, _, hinc, _, hle, p, hp, tq, htq, _, hfr,
+    effQuote, heq, effFee, hcf, m1, ⟨hz, rfl⟩, m2, rfl, rfl, rfl⟩ := h
+  refine ⟨b, p, tq, effQuote, effFee, by simpa using hf, hb, hauth, hab,
+    by simpa [Bool.or_eq_true, Bid.remBase] using hinc, by simpa [Bid.remBase] using hle, hp,
+    by simpa [Bid.remBase] using htq, by simpa using hfr, heq, hcf, hz, ?_, ?_⟩
+  · simp [Bid.accumulate, Bid.remBase]
+  · simp [Bid.accumulate, Bid.remBase]
+
+/-! ### execute_match -/
+
+/-- `add_transfer` with an explicit mechanism flag (the match path passes the quote's flag
+    together with the fee's denomination) -/
+def payMsgR (r : Bool) (contract d : String) (n : Nat) (to : String) : Msg :=
+  if r then .transfer ⟨d, n⟩ to contract contract else .bank to ⟨d, n⟩
+
+theorem payMsg_eq (env : Env) (d : String) (n : Nat) (to : String) :
+    payMsg env d n to = payMsgR (env.restricted d) env.contract d n to := rfl
+
+theorem addTransferR_eq_ok {r : Bool} {c d : String} {n : Nat} {to : String} {m : Msg} :
+    addTransfer r n d to c = .ok m ↔ (r = true → n ≠ 0) ∧ m = payMsgR r c d n to := by
+  unfold addTransfer payMsgR
+  cases r
+  · simp only [Bool.false_eq_true, if_false, Res.ok.injEq, false_implies, true_and]; exact eq_comm
+  · by_cases hn : n = 0
+    · simp [hn]
+    · simp only [if_true, hn, if_false, Res.ok.injEq, forall_const, ne_eq, not_false_eq_true, true_and]
+      exact eq_comm
+
+def payIfPosMsgsR (r : Bool) (c d : String) (n : Nat) (to : String) : List Msg :=
+  if n = 0 then [] else [payMsgR r c d n to]
+
+theorem payIfPosR_eq_ok {r : Bool} {c d : String} {n : Nat} {to : String} {ms : List Msg} :
+    payIfPos r n d to c = .ok ms ↔ ms = payIfPosMsgsR r c d n to := by
+  unfold payIfPos payIfPosMsgsR
+  by_cases hn : n = 0
+  · simp only [hn, beq_self_eq_true, if_true, Res.ok.injEq]; exact eq_comm
+  · have hx : addTransfer r n d to c = .ok (payMsgR r c d n to) :=
+      addTransferR_eq_ok.mpr ⟨fun _ => hn, rfl⟩
+    simp only [hn, beq_iff_eq, if_false, hx, Res.ok.injEq]; exact eq_comm
+
+theorem priceRule_ok {a b e : Dec} {u : Unit} :
+    priceRule a b e = .ok u ↔
+      (Dec.lt a b = true ∧ (Dec.eqv e a = true ∨ Dec.eqv e b = true)) ∨
+      (Dec.lt a b = false ∧ Dec.eqv a b = true ∧ Dec.eqv e a = true) := by
+  unfold priceRule
+  by_cases h1 : Dec.lt a b = true
+  · simp [h1]
+  · by_cases h2 : Dec.eqv a b = true
+    · simp [h1, h2]
+    · simp [h1, h2]
+
+/-- the ask fee of a match is the configured rate applied to the gross proceeds -/
+def AskFeeIs (info : Info) (grossD : Dec) (n : Nat) : Prop :=
+  match info.askFee with
+  | some fi => ∃ r, Dec.parse fi.rate = some r ∧ Dec.rateFee r grossD = .ok n
+  | none => n = 0
+
+theorem askFeeAmt_ok {info : Info} {g : Dec} {n : Nat} :
+    askFeeAmt info g = .ok n ↔ AskFeeIs info g n := by
+  unfold askFeeAmt AskFeeIs
+  cases info.askFee with
+  | none => simp only [Res.ok.injEq]; exact eq_comm
+  | some fi =>
+    cases hp : Dec.parse fi.rate with
+    | none => simp [hp]
+    | some r => simp [hp]
+
+def askFeeMsgList (env : Env) (info : Info) (rQ : Bool) (askFee : Nat) (qd : String) : List Msg :=
+  match info.askFee with
+  | some fi => payIfPosMsgsR rQ env.contract qd askFee fi.account
+  | none => []
+
+theorem askFeeMsgs_ok {env : Env} {info : Info} {rQ : Bool} {n : Nat} {qd : String} {ms : List Msg} :
+    askFeeMsgs env info rQ n qd = .ok ms ↔ ms = askFeeMsgList env info rQ n qd := by
+  unfold askFeeMsgs askFeeMsgList
+  cases info.askFee with
+  | none => simp only [Res.ok.injEq]; exact eq_comm
+  | some fi => simp only [payIfPosR_eq_ok]
+
+theorem bidFeeMsgs_ok {env : Env} {info : Info} {bid : Bid} {rQ : Bool} {n : Nat} {ms : List Msg} :
+    bidFeeMsgs env info bid rQ n = .ok ms ↔
+      (n = 0 ∧ ms = []) ∨
+      (n ≠ 0 ∧ ∃ fi, info.bidFee = some fi ∧
+        ms = [payMsgR rQ env.contract ((bid.fee.map (·.denom)).getD bid.quote.denom) n fi.account]) := by
+  unfold bidFeeMsgs
+  by_cases hn : n = 0
+  · simp only [hn, beq_self_eq_true, if_true, Res.ok.injEq, true_and, ne_eq, not_true_eq_false,
+      false_and, or_false]; exact eq_comm
+  · cases hb : info.bidFee with
+    | none => simp [hn]
+    | some fi => simp [hn, payIfPosR_eq_ok, payIfPosMsgsR]
+
+def classMsgList (env : Env) (ask' : Ask) (bid : Bid) (rB rQ : Bool) (net size : Nat) : List Msg :=
+  match ask'.cls with
+  | .basic => payIfPosMsgsR rQ env.contract bid.quote.denom net ask'.owner ++
+              [payMsgR rB env.contract ask'.base size bid.owner]
+  | .ready ap c => [payMsg env c.denom size bid.owner, payMsgR rB env.contract ask'.base size ap] ++
+                   payIfPosMsgsR rQ env.contract bid.quote.denom net ap
+  | .pending => []
+
+theorem classMsgs_ok {env : Env} {ask' : Ask} {bid : Bid} {rB rQ : Bool} {net size : Nat}
+    {ms : List Msg} :
+    classMsgs env ask' bid rB rQ net size = .ok ms ↔
+      ask'.cls ≠ .pending ∧ (rB = true → size ≠ 0) ∧
+      (∀ ap c, ask'.cls = .ready ap c → env.restricted c.denom = true → size ≠ 0) ∧
+      ms = classMsgList env ask' bid rB rQ net size := by
+  unfold classMsgs classMsgList
+  cases hc : ask'.cls with
+  | pending => simp
+  | basic =>
+    simp only [Res.bind_eq_ok, payIfPosR_eq_ok, addTransferR_eq_ok, Res.pure_eq, Res.ok.injEq,
+      ne_eq, reduceCtorEq, not_false_eq_true, true_and, false_implies, implies_true]
+    constructor
+    · rintro ⟨_, rfl, _, ⟨hz, rfl⟩, rfl⟩; exact ⟨hz, rfl⟩
+    · rintro ⟨hz, rfl⟩; exact ⟨_, rfl, _, ⟨hz, rfl⟩, rfl⟩
+  | ready ap c =>
+    simp only [Res.bind_eq_ok, payIfPosR_eq_ok, addTransferR_eq_ok, addTransfer_eq_ok, Res.pure_eq,
+      Res.ok.injEq, ne_eq, reduceCtorEq, not_false_eq_true, true_and, AskClass.ready.injEq, and_imp]
+    constructor
+    · rintro ⟨_, ⟨hz1, rfl⟩, _, ⟨hz2, rfl⟩, _, rfl, rfl⟩
+      exact ⟨hz2, fun _ _ h1 h2 => by subst h1 h2; exact hz1, rfl⟩
+    · rintro ⟨hz2, hz1, rfl⟩
+      exact ⟨_, ⟨hz1 ap c rfl rfl, rfl⟩, _, ⟨hz2, rfl⟩, _, rfl, rfl⟩
+
+/-- the fee part of a price-improvement refund -/
+def FeeRefundIs (origFee bidFee feeRefund : Nat) : Prop :=
+  (origFee ≠ 0 ∧ bidFee ≤ origFee ∧ feeRefund = origFee - bidFee) ∨ (origFee = 0 ∧ feeRefund = 0)
+
+def refundMsgList (env : Env) (b : Bid) (rQ : Bool) (refund feeRefund : Nat) : List Msg :=
+  payIfPosMsgsR rQ env.contract b.quote.denom refund b.owner ++
+  (if refund ≠ 0 then
+     payIfPosMsgsR rQ env.contract ((b.fee.map (·.denom)).getD b.quote.denom) feeRefund b.owner
+   else [])
+
+theorem refundPart_ok {env : Env} {b : Bid} {improved : Bool} {bidP : Dec}
+    {size gross bidFee : Nat} {rQ : Bool} {rp : List Msg × Bid} :
+    refundPart env b improved bidP size gross bidFee rQ = .ok rp ↔
+      (improved = false ∧ rp = ([], b.accumulate size gross bidFee)) ∨
+      (improved = true ∧ ∃ origD orig origFee feeRefund,
+        Dec.total bidP size = .ok origD ∧ origD.hasFract = false ∧ origD.toU128 = some orig ∧
+        gross ≤ orig ∧ calcFee b orig = .ok origFee ∧ FeeRefundIs origFee bidFee feeRefund ∧
+        rp = (refundMsgList env b rQ (orig - gross) feeRefund,
+              (b.accumulate size gross bidFee).accumulate 0 (orig - gross) feeRefund)) := by
+  unfold refundPart
+  cases improved with
+  | false =>
+    simp only [Bool.false_eq_true, if_false, Res.ok.injEq, true_and, false_and, or_false]
+    exact eq_comm
+  | true =>
+    simp only [if_true, Res.bind_eq_ok, guardR_eq_ok, orErr_eq_ok, subR_eq_ok, payIfPosR_eq_ok,
+      Res.pure_eq, Res.ok.injEq, Bool.true_eq_false, false_and, false_or, true_and]
+    constructor
+    · rintro ⟨origD, ht, _, hfr, orig, hu, _, ⟨hle, rfl⟩, origFee, hcf, feeRefund, hfee, _, rfl, _, hb, rfl⟩
+      refine ⟨origD, orig, origFee, feeRefund, ht, by simpa using hfr, hu, hle, hcf, ?_, ?_⟩
+      · unfold FeeRefundIs
+        by_cases h0 : origFee = 0
+        · simp [h0] at hfee; exact Or.inr ⟨h0, hfee.symm⟩
+        · simp [h0] at hfee; exact Or.inl ⟨h0, hfee.1, hfee.2⟩
+      · unfold refundMsgList
+        by_cases hr : orig - gross = 0
+        · simp [hr] at hb ⊢; subst hb; simp [payIfPosMsgsR]
+        · simp [hr, payIfPosR_eq_ok] at hb ⊢; subst hb; rfl
+    · rintro ⟨origD, orig, origFee, feeRefund, ht, hfr, hu, hle, hcf, hfee, rfl⟩
+      refine ⟨origD, ht, (), by simpa using hfr, orig, hu, _, ⟨hle, rfl⟩, origFee, hcf, feeRefund, ?_,
+        _, rfl, _, ?_, rfl⟩
+      · rcases hfee with ⟨h0, hle2, rfl⟩ | ⟨h0, rfl⟩
+        · simp [h0, hle2]
+        · simp [h0]
+      · by_cases hr : orig - gross = 0
+        · simp [hr]
+        · simp [hr, payIfPosR_eq_ok]
+
+/-- what an accepted match establishes -/
+theorem executeMatch_ok {env : Env} {s s' : State} {sender : String} {funds : List Coin}
+    {askId bidId price : String} {size : Nat} {r : Response}
+    (h : executeMatch env s sender funds askId bidId price size = .ok (s', r)) :
+    ∃ a b askP bidP execP grossD gross askFee bidFee m2 m3 rp,
+      memS sender s.info.executors = true ∧ funds = [] ∧
+      s.asks.get? askId = some a ∧ loadBid s bidId = some b ∧ a.quote = b.quote.denom ∧
+      Dec.parse a.price = some askP ∧ Dec.parse b.price = some bidP ∧ Dec.parse price = some execP ∧
+      priceRule askP bidP execP = .ok () ∧
+      b.accBase ≤ b.base.amount ∧ size ≤ a.size ∧ size ≤ b.remBase ∧
+      Dec.total execP size = .ok grossD ∧ grossD.hasFract = false ∧ grossD.toU128 = some gross ∧
+      AskFeeIs s.info grossD askFee ∧ askFee ≤ gross ∧
+      calcFee b gross = .ok bidFee ∧
+      bidFeeMsgs env s.info b (env.restricted b.quote.denom) bidFee = .ok m2 ∧
+      classMsgs env (a.reduce size) b (env.restricted a.base) (env.restricted b.quote.denom)
+        (gross - askFee) size = .ok m3 ∧
+      refundPart env b (Dec.lt execP bidP) bidP size gross bidFee (env.restricted b.quote.denom) = .ok rp ∧
+      s' = { s with asks := putAsk s.asks askId (a.reduce size), bids := putBid s.bids bidId rp.2 } ∧
+      r = { msgs := askFeeMsgList env s.info (env.restricted b.quote.denom) askFee b.quote.denom ++
+                    m2 ++ m3 ++ rp.1,
+            attrs := [("action", "execute"), ("ask_id", askId), ("bid_id", bidId),
+                      ("base", b.base.denom), ("quote", a.quote), ("price", price),
+                      ("size", toString size), ("ask_fee", toString askFee),
+                      ("bid_fee", toString bidFee)] } := by
+  unfold executeMatch at h
+  simp only [Res.bind_eq_ok, guardR_eq_ok, orErr_eq_ok, subR_eq_ok, askFeeAmt_ok, askFeeMsgs_ok,
+    Res.pure_eq, Res.ok.injEq, Prod.mk.injEq] at h
+  obtain ⟨_, hex, _, hf, a, ha, b, hb, _, hq, askP, hap, bidP, hbp, execP, hep, _, hpr, _, ⟨hab, rfl⟩,
+    _, hsz, grossD, hg, _, hfr, gross, hgu, askFee, haf, m1, rfl, _, ⟨hle, rfl⟩, bidFee, hbf, m2, hm2,
+    m3, hm3, rp, hrp, rfl, rfl⟩ := h
+  simp only [Bool.and_eq_true, decide_eq_true_eq] at hsz
+  exact ⟨a, b, askP, bidP, execP, grossD, gross, askFee, bidFee, m2, m3, rp, hex, by simpa using hf,
+    ha, hb, by simpa using hq, hap, hbp, hep, hpr, hab, hsz.1, by simpa [Bid.remBase] using hsz.2,
+    hg, by simpa using hfr, hgu, haf, hle, hbf, hm2, hm3, hrp, rfl, rfl⟩
 
 end Ats
